@@ -26,9 +26,10 @@ class CFGVariableConverter:
 
     def _get_state_index(self, state):
         """Get the state index"""
-        if state.index_cfg_converter is None:
+        # The index stored on the object may come from another converter
+        if state not in self._inverse_states_d:
             self._set_index_state(state)
-        return state.index_cfg_converter
+        return self._inverse_states_d[state]
 
     def _set_index_state(self, state):
         """Set the state index"""
@@ -39,9 +40,10 @@ class CFGVariableConverter:
 
     def _get_symbol_index(self, symbol):
         """Get the symbol index"""
-        if symbol.index_cfg_converter is None:
+        # The index stored on the object may come from another converter
+        if symbol not in self._inverse_stack_symbol_d:
             self._set_index_symbol(symbol)
-        return symbol.index_cfg_converter
+        return self._inverse_stack_symbol_d[symbol]
 
     def _set_index_symbol(self, symbol):
         """ Set the symbol index """
